@@ -2,6 +2,8 @@ package props
 
 import (
 	"fmt"
+	"regexp"
+	"strings"
 	"testing"
 
 	"pgregory.net/rapid"
@@ -76,8 +78,23 @@ func handleRunVerdict(rt *rapid.T, s *vh.Session, c runCase, v runVerdict) {
 	default:
 		s.Eval(1)
 		s.Discard(1)
-		s.Label("discard-detail:" + vh.FirstLines(v.Msg, 1))
+		s.Label("discard-detail:" + discardDetail(v.Msg))
 	}
+}
+
+var reFilePos = regexp.MustCompile(`^\S+\.go:\d+:\d+: `)
+
+// discardDetail: the first informative line of a discard reason (for compile errors the first
+// error without its position, so that equal causes are counted together).
+func discardDetail(msg string) string {
+	for _, ln := range strings.Split(msg, "\n") {
+		ln = strings.TrimSpace(ln)
+		if ln == "" || strings.HasPrefix(ln, "#") {
+			continue
+		}
+		return reFilePos.ReplaceAllString(ln, "")
+	}
+	return vh.FirstLines(msg, 1)
 }
 
 func runCaseReplay(t *testing.T, s *vh.Session) {
